@@ -24,6 +24,33 @@ import keyword
 import numpy as np
 from harness import common as C
 
+# source tie (harness/translate.py, dialect 'dyn'): the recursive writer, the HDF5 group methods, the spectrum dictionaries and the
+# loader, regenerated on every run into lean/TaurexModel/Gen/SrcC16.lean and proved equal to the functions of
+# TaurexModel/Output.lean in lean/Props/C16Src.lean
+_U = 'taurex/util/util.py'
+_H = 'taurex/output/hdf5.py'
+SRC_SPECS = [
+    dict(module=_U, func='recursively_save_dict_contents_to_output', lean='recursively_save', dialect='dyn',
+         callees={'store_thing': 3}),
+    dict(module=_U, func='store_thing', lean='store_thing', dialect='dyn', fuel=True),
+    dict(module=_H, cls='HDF5OutputGroup', func='write_array', lean='write_array', callname='self.write_array',
+         dialect='dyn', fuel=True, decorators=['only_master_rank']),
+    dict(module=_H, cls='HDF5OutputGroup', func='write_string_array', lean='write_string_array', dialect='dyn',
+         decorators=['only_master_rank']),
+    dict(module='taurex/binning/binner.py', cls='Binner', func='generate_spectrum_output', lean='binner_gso',
+         callname='binner_gso', dialect='dyn', keep_self=True),
+    dict(module='taurex/binning/fluxbinner.py', cls='FluxBinner', func='generate_spectrum_output', lean='fluxbinner_gso',
+         dialect='dyn', calls={'super().generate_spectrum_output': 'binner_gso'}),
+    dict(module='taurex/binning/simplebinner.py', cls='SimpleBinner', func='generate_spectrum_output',
+         lean='simplebinner_gso', dialect='dyn', calls={'super().generate_spectrum_output': 'binner_gso'}),
+    dict(module='taurex/binning/nativebinner.py', cls='NativeBinner', func='generate_spectrum_output',
+         lean='nativebinner_gso', dialect='dyn'),
+    dict(module=_U, func='decode_string_array', lean='decode_string_array', dialect='dyn'),
+    dict(module='taurex/util/hdf5.py', func='get_klass_args', lean='get_klass_args', dialect='dyn'),
+    dict(module='taurex/util/hdf5.py', func='load_generic_profile_from_hdf5', lean='load_generic_profile', dialect='dyn',
+         unshared=['args_dict']),
+]
+
 RULE = ('dictionaries: 1-7 entries per level, depth <= 3, values drawn from scalars (float/int/bool, numpy and python, '
         'nan/inf/-0.0), arrays (bool/int64/float64, 0-3 dims incl. empty), unicode strings, clean string lists, '
         'tuples, homogeneous / mixed-kind / nested numeric lists, lists of arrays, ragged lists (expansion), '
@@ -1612,6 +1639,24 @@ def _eval_model(ctx, scratch, spec, stream='model'):
                        spec.get('binner', 'native'), size, np.asarray(res[2]), case, prefix='stored-')
     except Exception as e:  # noqa  the stored entries are not even usable as the arrays they were
         ctx.violation('stored-spectra-unusable', 'Output/Spectra cannot be checked for consistency: %r' % (e,), case)
+    # the per-contribution and per-component dictionaries follow the SAME size rule (taurex.py stores them with size-3)
+    csz = size - 3
+    bkind = spec.get('binner', 'native')
+    for cname, cd in (stored.get('Contributions') or {}).items():
+        if not isinstance(cd, dict):
+            continue
+        levels = [('contribution ' + cname, {k: v for k, v in cd.items() if not isinstance(v, dict)})]
+        levels += [('component %s/%s' % (cname, k), v) for k, v in cd.items() if isinstance(v, dict)]
+        for where, dd in levels:
+            if not dd:
+                continue
+            ctx.bucket('model:contribution-dict-size-rule')
+            if ('native_tau' in dd) != (csz > 3):
+                ctx.violation('stored-contribution-native-tau-presence', '%s: native_tau present=%s although the requested '
+                              'output size (%d for contributions) says %s' % (where, 'native_tau' in dd, csz, csz > 3), case)
+            if bkind != 'native' and 'binned_spectrum' in dd and ('binned_tau' in dd) != (csz > 1):
+                ctx.violation('stored-contribution-binned-tau-presence', '%s: binned_tau present=%s although the requested '
+                              'output size (%d for contributions) says %s' % (where, 'binned_tau' in dd, csz, csz > 1), case)
     if not values_equal(top.get('native_spectrum'), res[1], rel=0.0) or not values_equal(top.get('native_wngrid'), res[0], rel=0.0):
         ctx.violation('stored-native-spectrum', 'Output/Spectra native grid/spectrum is not the model result', case)
     for k, v in profiles.items():
